@@ -177,6 +177,134 @@ Proof.
   apply iso_unnorm_sound; assumption.
 Qed.
 
+(* ---- (7) IsotropicGaussian::sample, the random-walk proposal whose density (5) describes.
+   Model: Model/Proposal.v.  IEEE arithmetic through Flocq, generic in the format (prec, emax);
+   per coordinate  iso_coord std z cur = (0 + std * z) + cur  with round-to-nearest-even after
+   every operation;  iso_sample = one call,  iso_samples k = k consecutive calls from the same
+   `current` on ONE stream of standard-normal draws zs (a call on a d-vector consumes d + 1 draws and
+   uses the first d);  iso_sample_R = the same expression in exact real arithmetic. ---- *)
+From MiniMcmc Require Import Model.Proposal Proofs.Proposal.
+From Flocq Require Import Core Binary.
+
+(* one call: as many values as the shorter of (draws, current); value i is a function of draw i and
+   current_i only *)
+Theorem C15_sample_coordinatewise :
+  forall (prec emax : Z) (Hprec : FLX.Prec_gt_0 prec)
+         (Hmax : BinarySingleNaN.Prec_lt_emax prec emax)
+         (nanf : binary_float prec emax -> binary_float prec emax ->
+                 {x : binary_float prec emax | Binary.is_nan prec emax x = true})
+         (std : binary_float prec emax) (zs cur : list (binary_float prec emax)),
+  length (iso_sample nanf std zs cur) = Nat.min (length zs) (length cur) /\
+  (forall (dflt dz dc : binary_float prec emax) (i : nat),
+     (i < length zs)%nat -> (i < length cur)%nat ->
+     nth i (iso_sample nanf std zs cur) dflt = iso_coord nanf std (nth i zs dz) (nth i cur dc)).
+Proof.
+  intros. split; [apply iso_sample_length | intros; apply iso_sample_nth; assumption].
+Qed.
+
+(* k calls, d = length cur: k results of d values each; value (j, i) is computed from draw number
+   j*(d+1) + i; different (j, i) use different draws (no draw is used twice), and the draws
+   j*(d+1) + d are used by no value *)
+Theorem C15_sample_draw_discipline :
+  forall (prec emax : Z) (Hprec : FLX.Prec_gt_0 prec)
+         (Hmax : BinarySingleNaN.Prec_lt_emax prec emax)
+         (nanf : binary_float prec emax -> binary_float prec emax ->
+                 {x : binary_float prec emax | Binary.is_nan prec emax x = true})
+         (k : nat) (std : binary_float prec emax) (zs cur : list (binary_float prec emax)),
+  length (iso_samples nanf k std zs cur) = k /\
+  (forall (j i : nat) (dflt dz dc : binary_float prec emax),
+     (j < k)%nat -> (i < length cur)%nat -> (k * S (length cur) <= length zs)%nat ->
+     length (nth j (iso_samples nanf k std zs cur) []) = length cur /\
+     nth i (nth j (iso_samples nanf k std zs cur) []) dflt
+     = iso_coord nanf std (nth (j * S (length cur) + i) zs dz) (nth i cur dc)) /\
+  (forall d j i j' i' : nat, (i < d)%nat -> (i' < d)%nat ->
+     (j * S d + i = j' * S d + i')%nat -> j = j' /\ i = i') /\
+  (forall d j j' i' : nat, (i' < d)%nat -> (j' * S d + i' <> j * S d + d)%nat).
+Proof.
+  intros. split; [apply iso_samples_length|].
+  split; [intros; split; [apply iso_samples_row_length | apply iso_samples_draw_index]; assumption|].
+  split; [exact iso_draw_index_inj | exact iso_draw_index_skips].
+Qed.
+
+(* real value of one coordinate: for finite std, z, current such that neither the product nor the
+   sum overflows (the side conditions of Flocq's Bmult_correct / Bplus_correct), the result is finite
+   and equals  round(round(std * z) + current),  round = round-to-nearest-even onto the format;
+   the addition 0 + std*z is exact *)
+Theorem C15_sample_rounded_value :
+  forall (prec emax : Z) (Hprec : FLX.Prec_gt_0 prec)
+         (Hmax : BinarySingleNaN.Prec_lt_emax prec emax)
+         (nanf : binary_float prec emax -> binary_float prec emax ->
+                 {x : binary_float prec emax | Binary.is_nan prec emax x = true})
+         (std z cur : binary_float prec emax),
+  let round := Generic_fmt.round Zaux.radix2 (FLT.FLT_exp (3 - emax - prec) prec)
+                 (Generic_fmt.Znearest (fun x => negb (Z.even x))) in
+  is_finite prec emax std = true -> is_finite prec emax z = true ->
+  is_finite prec emax cur = true ->
+  Rlt_bool (Rabs (round (B2R prec emax std * B2R prec emax z))) (bpow radix2 emax) = true ->
+  Rlt_bool (Rabs (round (round (B2R prec emax std * B2R prec emax z) + B2R prec emax cur)))
+           (bpow radix2 emax) = true ->
+  B2R prec emax (iso_coord nanf std z cur)
+  = round (round (B2R prec emax std * B2R prec emax z) + B2R prec emax cur) /\
+  is_finite prec emax (iso_coord nanf std z cur) = true.
+Proof. intros prec emax Hprec Hmax nanf std z cur round. exact (iso_coord_rounded prec emax Hprec Hmax nanf std z cur). Qed.
+
+(* non-vacuity, binary32: std = 2 (0x40000000), z = 1/2 (0x3F000000), current = 1 (0x3F800000) are
+   finite and meet both no-overflow conditions; the proposed coordinate is 2 *)
+Example C15_sample_rounded_example :
+  let round := Generic_fmt.round Zaux.radix2 (FLT.FLT_exp (3 - 128 - 24) 24)
+                 (Generic_fmt.Znearest (fun x => negb (Z.even x))) in
+  let std := b32_of_bits 1073741824 in
+  let z := b32_of_bits 1056964608 in
+  let cur := b32_of_bits 1065353216 in
+  is_finite 24 128 std = true /\ is_finite 24 128 z = true /\ is_finite 24 128 cur = true /\
+  B2R 24 128 std = 2 /\ B2R 24 128 z = / 2 /\ B2R 24 128 cur = 1 /\
+  Rlt_bool (Rabs (round (B2R 24 128 std * B2R 24 128 z))) (bpow radix2 128) = true /\
+  Rlt_bool (Rabs (round (round (B2R 24 128 std * B2R 24 128 z) + B2R 24 128 cur)))
+           (bpow radix2 128) = true /\
+  B2R 24 128 (iso_coord binop_nan_pl32 std z cur) = 2.
+Proof.
+  intros round std z cur.
+  subst std z cur. rewrite b32_two_bits, b32_half_bits, b32_one_bits.
+  destruct iso_coord_example32 as (F1 & F2 & F3 & R1 & R2 & R3 & (N1 & N2) & V).
+  repeat split; assumption.
+Qed.
+
+(* exact-arithmetic reading: proposed_i = current_i + std * z_i, and the walk is reversible (the
+   negated draws lead back to the start) *)
+Theorem C15_sample_exact_reading : forall (std : R) (zs cur : list R),
+  length (iso_sample_R std zs cur) = Nat.min (length zs) (length cur) /\
+  (forall i : nat, (i < length zs)%nat -> (i < length cur)%nat ->
+     nth i (iso_sample_R std zs cur) 0 = nth i cur 0 + std * nth i zs 0) /\
+  (length zs = length cur ->
+     iso_sample_R std (map Ropp zs) (iso_sample_R std zs cur) = cur).
+Proof.
+  intros. split; [apply iso_sample_R_length|].
+  split; [intros; apply iso_sample_R_nth; assumption | apply iso_sample_R_reverse].
+Qed.
+
+(* link to the density (5): the log-density logp(current, .) of the proposed point is the
+   standard-normal log-density of the draws minus d ln|std| (the law of current + std * z under the
+   affine change of variables), and the forward and backward proposal densities agree (the
+   Metropolis-Hastings correction of this proposal is 1) *)
+Theorem C15_sample_density_link : forall (std : R) (zs cur : list R),
+  length zs = length cur ->
+  (std <> 0 ->
+     iso_logp dnumR std cur (iso_sample_R std zs cur)
+     = fold_left (fun acc z => acc + normal_logpdf dnumR 0 1 z) zs 0
+       - INR (length zs) * ln (Rabs std)) /\
+  (0 < std ->
+     iso_logp dnumR std cur (iso_sample_R std zs cur)
+     = fold_left (fun acc z => acc + normal_logpdf dnumR 0 1 z) zs 0
+       - INR (length zs) * ln std) /\
+  iso_logp dnumR std cur (iso_sample_R std zs cur)
+  = iso_logp dnumR std (iso_sample_R std zs cur) cur.
+Proof.
+  intros std zs cur Hlen.
+  split; [intros Hs; apply iso_logp_change_of_variables; assumption|].
+  split; [intros Hs; apply iso_logp_change_of_variables_pos; assumption|].
+  apply iso_logp_sample_sym; assumption.
+Qed.
+
 Print Assumptions C15_gauss_norm_vs_unnorm.
 Print Assumptions C15_diffable_is_gauss.
 Print Assumptions C15_gauss_is_gaussian_density.
@@ -192,3 +320,9 @@ Print Assumptions C15_interval_sound_gauss.
 Print Assumptions C15_interval_sound_rosenbrock.
 Print Assumptions C15_interval_sound_rosenbrock_nd.
 Print Assumptions C15_interval_sound_iso.
+Print Assumptions C15_sample_coordinatewise.
+Print Assumptions C15_sample_draw_discipline.
+Print Assumptions C15_sample_rounded_value.
+Print Assumptions C15_sample_rounded_example.
+Print Assumptions C15_sample_exact_reading.
+Print Assumptions C15_sample_density_link.
